@@ -643,6 +643,41 @@ theorem required_default_present (tr : Transcode) (m : MethodD) (numeric : Bool)
     simp [this]
 
 
+/-! ### the presence kind of a field is irrelevant to the defaults table (round 10)
+
+`Field.oneof` is set for proto3 `optional` fields (synthetic oneof) and for members of a real oneof; the template's loop
+`for req_field in method.input.required_fields if req_field.name in method.query_params` does not look at it. -/
+
+theorem queryParams_withPresence (m : MethodD) (g : FieldD → Presence) :
+    queryParams (m.withPresence g) = queryParams m := by
+  unfold queryParams httpOpt rtNames MethodD.withPresence
+  simp only [List.map_map, Function.comp_def]
+
+/-- **the table is `required ∧ left to the query`, whatever the presence kinds are** -/
+theorem requiredDefaults_presence_irrelevant (m : MethodD) (g : FieldD → Presence) :
+    requiredDefaults (m.withPresence g) = requiredDefaults m := by
+  unfold requiredDefaults
+  rw [queryParams_withPresence]
+  unfold MethodD.withPresence
+  simp only [List.filter_map, List.map_map, Function.comp_def]
+
+/-- hence a call sends the same request whatever the presence kinds are (given the same transcoder result) -/
+theorem addedDefaults_presence_irrelevant (m : MethodD) (g : FieldD → Presence) (q : List JLeaf) :
+    addedDefaults (m.withPresence g) q = addedDefaults m q := by
+  unfold addedDefaults
+  rw [requiredDefaults_presence_irrelevant]
+
+/-- `required_default_present` for a required proto3-`optional` field or a required member of a real oneof: spelled out,
+it is the general theorem (which never mentions presence) -/
+theorem required_default_present_with_presence (tr : Transcode) (m : MethodD) (numeric : Bool) (req : Msg) (w : Wire)
+    (h : restCall tr m numeric req = .ok w) (f : FieldD) (hf : f ∈ m.fields) (hreq : f.required = true)
+    (_hp : f.presence = .optional ∨ f.presence = .oneofMember)
+    (hq : fixSeg f.name ∈ queryParams m) (hs : LowerSnake f.name) :
+    ∃ l ∈ w.query, l.path.head? = some (toJsonName f.name) ∧
+      (l = ⟨[toJsonName f.name], (defaultText f.kind).toList⟩ ∨
+       ∃ t, tr (httpOptions m) (rtMsg req) = some t ∧ l ∈ t.query.map (jsonLeaf numeric)) :=
+  required_default_present tr m numeric req w h f hf hreq hq hs
+
 /-! ### when is a default only added for a field the selected binding leaves unbound? -/
 
 -- `Unbound` and `Agree` are defined in `Model/Rest.lean` (the driver evaluates them on every generated call)
@@ -896,8 +931,8 @@ instance : Decidable (LowerSnake s) := by unfold LowerSnake; infer_instance
 /-- the standard Update shape: nested path variable, named body, required scalar left to the query -/
 def mUpdate : MethodD :=
   { http := ⟨some (§"patch"), §"/v1/{book.name=shelves/*/books/*}", §"book"⟩, additional := [],
-    fields := [⟨§"book", .msg, false, true⟩, ⟨§"update_mask", .msg, false, false⟩, ⟨§"force", .bool, false, true⟩,
-               ⟨§"kind", .enum, false, false⟩],
+    fields := [⟨§"book", .msg, false, true, .implicit⟩, ⟨§"update_mask", .msg, false, false, .implicit⟩, ⟨§"force", .bool, false, true, .implicit⟩,
+               ⟨§"kind", .enum, false, false, .implicit⟩],
     clientStreaming := false }
 
 def reqUpdate : Msg :=
@@ -945,12 +980,46 @@ example : replyOutcome 399 = .parsed ∧ replyOutcome 400 = .httpError 400 := by
 example : httpOptions ⟨⟨none, [], []⟩, [], [], false⟩ = [] := by decide +kernel
 example : httpOptions ⟨⟨some (§"custom"), §"/v1/x", []⟩, [], [], false⟩ = [] := by decide +kernel
 
+/-! ### round 10: required fields with presence (proto3 `optional`, member of a real oneof) left to the query -/
+
+def mListItems : MethodD :=
+  { http := ⟨some (§"get"), §"/v1/{parent=shelves/*}/items", []⟩, additional := [],
+    fields := [⟨§"parent", .str, false, true, .implicit⟩, ⟨§"depth", .int, false, true, .implicit⟩,
+               ⟨§"page_size", .int, false, true, .optional⟩, ⟨§"show_deleted", .bool, false, true, .optional⟩,
+               ⟨§"pick_s", .str, false, true, .oneofMember⟩, ⟨§"pick_n", .int, false, true, .oneofMember⟩,
+               ⟨§"filter", .str, false, false, .implicit⟩],
+    clientStreaming := false }
+
+/-- `GET /v1/shelves/1/items?depth=0&pageSize=0&showDeleted=false&pickS=&pickN=0` (what cc7f824…23a0705 send): every unset
+required field left to the query gets its default, the `optional` ones and the oneof members included -/
+theorem required_presence_defaults_regression :
+    restCall (refTranscode (rtNames mListItems)) mListItems false [⟨[§"parent"], [.plain (§"shelves/1")]⟩] =
+      .ok ⟨§"get", §"/v1/shelves/1/items", none,
+           [⟨[§"depth"], [§"0"]⟩, ⟨[§"pageSize"], [§"0"]⟩, ⟨[§"showDeleted"], [§"false"]⟩, ⟨[§"pickS"], [[]]⟩, ⟨[§"pickN"], [§"0"]⟩]⟩ ∧
+    Agree mListItems ⟨§"get", §"/v1/{parent=shelves/*}/items", none⟩ := by decide +kernel
+
+/-- an explicitly set member (even default-valued: it has presence, so it is serialised) travels as set; only the
+unset ones are defaulted -/
+theorem required_presence_set_regression :
+    restCall (refTranscode (rtNames mListItems)) mListItems false
+        [⟨[§"parent"], [.plain (§"shelves/1")]⟩, ⟨[§"page_size"], [.plain (§"0")]⟩, ⟨[§"pick_s"], [.plain (§"x")]⟩] =
+      .ok ⟨§"get", §"/v1/shelves/1/items", none,
+           [⟨[§"pageSize"], [§"0"]⟩, ⟨[§"pickS"], [§"x"]⟩, ⟨[§"depth"], [§"0"]⟩, ⟨[§"showDeleted"], [§"false"]⟩, ⟨[§"pickN"], [§"0"]⟩]⟩ := by
+  decide +kernel
+
+/-- a table that skips fields with `Field.oneof` set (seed10_C04) loses the defaults the statement demands:
+`required_default_present` is false of it -/
+theorem required_defaults_skipping_oneof_counterexample :
+    (§"pageSize", some (§"0")) ∈ requiredDefaults mListItems ∧
+    (§"pageSize", some (§"0")) ∉ requiredDefaultsSkippingOneof mListItems ∧
+    requiredDefaultsSkippingOneof mListItems = [(§"depth", some (§"0"))] := by decide +kernel
+
 /-! ### §9-F11 (OPEN): a required field bound only by an ADDITIONAL binding -/
 
 def mArchive : MethodD :=
   { http := ⟨some (§"get"), §"/v1/{name=archives/*}", []⟩,
     additional := [⟨some (§"get"), §"/v1/archives/{alt}", []⟩],
-    fields := [⟨§"name", .str, false, true⟩, ⟨§"alt", .str, false, true⟩, ⟨§"view", .str, false, false⟩],
+    fields := [⟨§"name", .str, false, true, .implicit⟩, ⟨§"alt", .str, false, true, .implicit⟩, ⟨§"view", .str, false, false, .implicit⟩],
     clientStreaming := false }
 
 /-- the second binding is used, `alt` travels in the path — and, default-valued, in the query:
@@ -965,7 +1034,7 @@ theorem additional_binding_counterexample :
 
 def mClass : MethodD :=
   { http := ⟨some (§"get"), §"/v1/{class=classes/*}", []⟩, additional := [],
-    fields := [⟨§"class", .str, false, true⟩, ⟨§"format", .str, false, true⟩], clientStreaming := false }
+    fields := [⟨§"class", .str, false, true, .implicit⟩, ⟨§"format", .str, false, true, .implicit⟩], clientStreaming := false }
 
 /-- `GET /v1/classes/7?format=`: `class` travels in the path only (it used to be sent again as `class=`),
 the generator's table agrees with the binding, and the unbound reserved-name field `format` still gets
@@ -982,7 +1051,7 @@ defaulted like a singular one (a repair was withdrawn: it broke the emitted unit
 
 def mBlob : MethodD :=
   { http := ⟨some (§"get"), §"/v1/{name=things/*}", []⟩, additional := [],
-    fields := [⟨§"name", .str, false, true⟩, ⟨§"blob", .bytes, false, true⟩], clientStreaming := false }
+    fields := [⟨§"name", .str, false, true, .implicit⟩, ⟨§"blob", .bytes, false, true, .implicit⟩], clientStreaming := false }
 
 /-- `GET /v1/things/1?blob=b''`: the Python repr of empty bytes, not base64 -/
 theorem bytes_default_counterexample :
@@ -991,7 +1060,7 @@ theorem bytes_default_counterexample :
 
 def mTags : MethodD :=
   { http := ⟨some (§"get"), §"/v1/{name=things/*}", []⟩, additional := [],
-    fields := [⟨§"name", .str, false, true⟩, ⟨§"tags", .str, true, true⟩], clientStreaming := false }
+    fields := [⟨§"name", .str, false, true, .implicit⟩, ⟨§"tags", .str, true, true, .implicit⟩], clientStreaming := false }
 
 /-- `GET /v1/things/1?tags=`: an unset required repeated field travels as ONE default element, which a
 server reads as a one-element list -/
@@ -1005,7 +1074,7 @@ theorem repeated_default_counterexample :
 def mBody1 : MethodD :=
   { http := ⟨some (§"post"), §"/v1/{name=things/*}", §"book"⟩,
     additional := [⟨some (§"get"), §"/v1/other/{mask}", []⟩],
-    fields := [⟨§"name", .str, false, false⟩, ⟨§"book", .msg, false, false⟩, ⟨§"mask", .str, false, false⟩],
+    fields := [⟨§"name", .str, false, false, .implicit⟩, ⟨§"book", .msg, false, false, .implicit⟩, ⟨§"mask", .str, false, false, .implicit⟩],
     clientStreaming := false }
 
 def mBody2 : MethodD :=
@@ -1035,7 +1104,7 @@ theorem fixBody_eq_fixSeg (b : Str) (h : b ≠ []) : fixBody b = some (fixSeg b)
 
 def mPeg : MethodD :=
   { http := ⟨some (§"post"), §"/v1/things/{id}", §"__peg_parser__"⟩, additional := [],
-    fields := [⟨§"id", .str, false, false⟩, ⟨§"__peg_parser__", .msg, false, false⟩], clientStreaming := false }
+    fields := [⟨§"id", .str, false, false, .implicit⟩, ⟨§"__peg_parser__", .msg, false, false, .implicit⟩], clientStreaming := false }
 
 theorem body_rename_regression :
     restCall (refTranscode (rtNames mPeg)) mPeg false
@@ -1134,7 +1203,8 @@ def genNames : List (List Char) := [§"filter", §"page_size", §"force", §"rat
   §"f32", §"f64", §"si", §"si64", §"blob", §"order_by", §"format", §"max", §"in", §"view", §"tags", §"nums", §"kinds", §"list", §"author",
   §"update_mask", §"read_time", §"ttl", §"limit", §"strict", §"note", §"opt_s", §"opt_n", §"labels", §"chapters", §"meta", §"choice_a",
   §"choice_b", §"name", §"parent", §"shelf_id", §"book_id", §"class", §"type", §"import", §"rev", §"uid", §"book", §"item", §"object",
-  §"payload", §"allow_missing", §"validate_only", §"alt", §"mask", §"id", §"q"]
+  §"payload", §"allow_missing", §"validate_only", §"alt", §"mask", §"id", §"q", §"depth", §"opt_count", §"show_deleted", §"opt_ratio",
+  §"opt_big", §"opt_label", §"opt_view", §"pick_s", §"pick_n", §"pick_b"]
 
 theorem camelKey_is_translated_on_generated_names :
     ∀ n ∈ genNames, camelKey (fixSeg n) = Pinned.Funcs.to_camel_case (fixSeg n) := by decide +kernel
